@@ -180,6 +180,9 @@ def conclude(prop, ctx, res, level="model_checking", rule="", clause_prefix=None
             except Exception:
                 pass
     cov["note_samples"] = note_samples
+    ds = sys.modules.get("drv_solve")
+    if ds is not None:      # generated parameter sets a constructor refused (dropped and drawn again; never a verdict)
+        cov["generator_rejects"] = len(ds.GENERATOR_REJECTS)
     cov.update({k: v for k, v in res.extra.items() if k not in cov})
     ev = {"property_id": prop, "tier": ctx.tier, "seed": ctx.seed, "level": level, "coverage": cov,
           "assumptions": res.assumptions, "wall_s": round(wall, 2), "violations": nviol}
